@@ -430,6 +430,10 @@ func (p *parserState) consumeAny(b []byte, qs []query, lvl int) (n int) {
 		p.querySatisfied = true
 	}
 	if rv <= 0 {
+		// A nested value that failed must fail its enclosing container.
+		if lvl > 0 {
+			return 0
+		}
 		return n
 	}
 	n += rv
